@@ -6,7 +6,7 @@ Blur: mip-chain sizes over Z, level selection and blend over Q, whole images und
 Tie to /repo, re-checked on every run:
   B1  the bodies of make_eccentricity_distance_maps, make_pooling_size_map_pixels/_lod and
       make_equi_pooling_size_map_pixels/_lod are cut from the current source, executed symbolically
-      (tracer/recipes/c18.py) and proved equal to the model for all reals (coq/tie/C18_TieA/B.v); the
+      (tracer/recipes/c18.py) and proved equal to the model for all reals (coq/tie/C18_TieA/B/C.v); the
       property's clauses are then proved about the traced code itself (coq/tie/C18_TieProps.v); the
       translator is validated numerically against the real functions.
   B2  pad_image_for_pyramid: the tuple handed to ReflectionPad2d, the output size / exception and (small
@@ -256,10 +256,13 @@ def apply_oracle(ctx, name, inp):
         res = [('oracle_ran', False, 'a verdict', repr(e)[:300])]
     bad = 0
     fn = FN[name] + ('[equi]' if inp.get('equi') and name == 'pool' else '')
+    seen = ctx.__dict__.setdefault('_c18_reported', {})
     for clause, ok, exp, obs in res:
         if not ok:
             bad += 1
-            ctx.violation(fn, clause, dict(inp, oracle=name), exp, obs)
+            if seen.get((fn, clause), 0) < 2:          # keep room in the report for every distinct clause
+                if ctx.violation(fn, clause, dict(inp, oracle=name), exp, obs) == 'violation':
+                    seen[(fn, clause)] = seen.get((fn, clause), 0) + 1
     return bad, res
 
 
@@ -361,8 +364,7 @@ def self_check(ctx, g):
 # ================================================================ B2: pad correspondence
 def pad_correspondence(ctx):
     hi = 70 if ctx.thorough else 40
-    cases = [(h, w, n) for n in range(0, 5) for h in range(1, hi + 1) for w in range(1, hi + 1)
-             if ctx.thorough or w in (h, 1, 7, 16, 33, hi) or (h * 3 + w * 5 + n) % 4 == 0]
+    cases = [(h, w, n) for n in range(0, 5) for h in range(1, hi + 1) for w in range(1, hi + 1)]
     terms = ['pad_summary %d %d %d' % c for c in cases]
     vals = ctx.coq_eval(PRE + 'Import Pad. Open Scope Z_scope.', terms, label='pad', chunk=500)
     mism = 0
@@ -517,6 +519,7 @@ def run(ctx):
     ctx.gate()
     ctx.ensure_theories(['theories/C18/Props.vo'])
     ctx.theorems('OdakV.C18.Props', PROPS)
+    ctx.log('theorems checked')
     # ---- B1
     try:
         g = recipe.trace()
@@ -526,15 +529,18 @@ def run(ctx):
         g = None
         ctx.obligation('translator:trace', False, repr(e))
     if g is not None:
-        ctx.compile_tie('GenC18', g.text(), [['C18_TieA', 'C18_TieB'], ['C18_TieProps']], timeout=600)
+        ctx.compile_tie('GenC18', g.text(), [['C18_TieA', 'C18_TieB', 'C18_TieC'], ['C18_TieProps']], timeout=600)
         try:
             self_check(ctx, g)
         except Exception as e:
             ctx.obligation('translator-self-check', False, repr(e))
         ctx.sample({'traced_definition': 'pix_q_0_1', 'coq': __import__('tracer.shim').shim.coq(g.by_name['pix_q_0_1'][1])[:500]})
+    ctx.log('B1 done')
     # ---- B2
     pad_correspondence(ctx)
+    ctx.log('pad correspondence done')
     blur_correspondence(ctx)
+    ctx.log('blur correspondence done')
     # ---- direct oracles
     rng = ctx.rng
     n_or = 0
@@ -550,21 +556,23 @@ def run(ctx):
     for h, w, n in [(100, 37, 5), (129, 255, 7), (1080, 1920, 5), (65, 64, 6), (64, 64, 6), (600, 2, 1)]:
         apply_oracle(ctx, 'pad', {'h': h, 'w': w, 'n': n, 'c': 1, 'b': 1}); n_or += 1
         ctx.case('oracle/pad/large', ('op', h, w, n))
-    npool = 1500 if ctx.thorough else 420
+    ctx.log('pad oracles done')
+    npool = 4000 if ctx.thorough else 1200
     for k in range(npool):
         inp = gen_pool_case(rng, equi=(k % 3 == 0))
         bad, res = apply_oracle(ctx, 'pool', inp); n_or += 1
         ctx.case('oracle/pool/%s/%s%s' % ('equi' if inp['equi'] else 'screen', inp['mode'], '/min' if inp.get('check_min') else ''),
                  ('pool', json.dumps(inp, sort_keys=True)), nontrivial=bool(inp.get('check_min')))
         if k == 1: ctx.sample({'pool_case': inp, 'clauses': [r[0] for r in res]})
-    nblur = 700 if ctx.thorough else 200
+    ctx.log('pool oracles done')
+    nblur = 3000 if ctx.thorough else 700
     for k in range(nblur):
         inp = gen_blur_case(rng)
         bad, res = apply_oracle(ctx, 'blur', inp); n_or += 1
         ctx.case('oracle/blur/%s/%s/b%dc%d' % ('equi' if inp['equi'] else 'screen', inp['kind'], inp['b'], inp['c']),
                  ('blur', json.dumps(inp, sort_keys=True)), nontrivial=max(inp['h'], inp['w']) > 1)
     ctx.exhaustive = True
-    ctx.extra['exhaustive_domain'] = 'pad: (h, w) in [1,%d]^2 (quick: a fixed 1/4 sub-lattice plus structured rows), n in 0..4' % (70 if ctx.thorough else 40)
+    ctx.extra['exhaustive_domain'] = 'pad (model in Coq vs implementation): every (h, w) in [1,%d]^2, n in 0..4' % (70 if ctx.thorough else 40)
     ctx.extra['oracle_calls'] = n_or
 
 
